@@ -223,7 +223,8 @@ def proof_gate(prop):
             res["obligations"].append({"name": m.group(1), "ok": False, "assumptions": []})
         return res
     # re-run coqc on the property file alone to capture Print Assumptions
-    p = sh(["coqc", "-Q", "theories", "PDL", "-o", str(CACHE / f"gate-{prop}.vo"), str(pf.relative_to(COQ))],
+    (CACHE / "gate").mkdir(exist_ok=True)
+    p = sh(["coqc", "-Q", "theories", "PDL", "-o", str(CACHE / "gate" / f"{prop}.vo"), str(pf.relative_to(COQ))],
            cwd=COQ, check=False, timeout=1200)
     text = p.stdout.decode(errors="replace")
     res["log"] = (text + p.stderr.decode(errors="replace"))[-4000:]
